@@ -92,9 +92,13 @@ pub fn generate(seed: u64, tier: &str) -> Scenario {
     }
     let sb = |r: &mut Rng| -> Vec<SbomSpec> {
         (0..r.usize(3))
-            .map(|_| SbomSpec {
-                format: r.below(3) as u8,
-                data: r.bytes(6),
+            .map(|_| {
+                if r.chance(1, 5) {
+                    // a typed CycloneDX value converted by libcnb (feature cyclonedx-bom)
+                    SbomSpec { format: 0, data: super::bp::SBOM_TYPED_CYCLONEDX.to_vec() }
+                } else {
+                    SbomSpec { format: r.below(3) as u8, data: r.bytes(6) }
+                }
             })
             .collect()
     };
